@@ -303,6 +303,18 @@ def _nobb(e):
     return c06.nobb(e)
 
 
+def _array_args(e, out=None):
+    """Arguments of every `Layout::array::<_>(n)` inside a symbolic expression."""
+    if out is None:
+        out = []
+    if isinstance(e, tuple):
+        if e and e[0] == "call" and len(e) > 3 and e[1] == "<core::alloc::layout::Layout>::array" and e[3]:
+            out.append(e[3][0])
+        for x in e:
+            _array_args(x, out)
+    return out
+
+
 def rule_fatlen(ctx, rep):
     """Every fabrication of a fat block pointer (slice_from_raw_parts re-typed to INNER<..[T]..>) takes its length either from the
     value the block was sized with, or from the length stored in that very block; Box<INNER<[..]>> frees with the layout that length implies."""
@@ -346,6 +358,12 @@ def rule_fatlen(ctx, rep):
                     for bj, t2 in OB.calls():
                         if atomics.callee_of(t2) == "<core::alloc::layout::Layout>::array":
                             sized_with.append(_nobb(symx.expr(F, OB, t2["args"][0])))
+                        elif atomics.callee_of(t2) in F.bodies and not t2["dest"]["p"]:
+                            # the layout may be computed by a private helper (`fn header_and_slice_layout(len) -> Layout`)
+                            ce = symx.local_expr(F, OB, t2["dest"]["l"], 0)
+                            r = symx.inline_call(F, ce) if ce[0] == "call" else None
+                            if r is not None:
+                                sized_with += [_nobb(x) for x in _array_args(r)]
                     cand = len_e
                     if b["kind"] == "Closure" and len_e[0] == "proj" and len_e[1] == ("arg", 1) and len_e[2]:
                         try:
